@@ -524,6 +524,11 @@ def exec_violations(results, want_outputs=True):
                 o = sorted(oob)[0]
                 vs.append(Violation("output_out_of_extent", [h], {"input_set": i, "output": o, "coords": oob[o]}))
                 break
+            if run.get("bad_shapes"):
+                # a tensor constructed with an explicit shape whose i-th entry is not the extent of its i-th rank:
+                # the result (or the intermediate handed to the next Einsum) carries wrong extents
+                vs.append(Violation("explicit_shape_wrong", [h], {"input_set": i, "shapes": run["bad_shapes"]}))
+                break
         if vs:
             break
     return vs
